@@ -247,3 +247,6 @@ BOUNDS = ["reversal: scaffolds of <= 4 rows, unbounded coordinates, strands {-1,
 OUTSIDE = ["scaffolds of more than 4 rows (Scaffold.reverse is one slice and one loop over rows)",
            "streaming commutation is bounded as the C03 stream conditions are (see C03)"]
 TRUSTED = ["CrossHair/z3", "bytes.translate / slicing semantics of CPython (the array lemma models seq[::-1].translate(T); the model is validated against the real function on concrete vectors each run)"]
+
+TECHNIQUE = ("z3 lemmas (uninterpreted function over BV8 for the 256-entry table; array lemma for reverse-complement involution of any length) + CrossHair on Scaffold.reverse / to_scaffold / streaming of reversed scaffolds")
+LEVEL_TEXT = ("The complement table is decided exhaustively and the involution for arbitrary length by z3; reversal laws for all coordinates and strands of each template by CrossHair.")
